@@ -244,7 +244,9 @@ func engineForSeed(prop string, s uint64) Engine {
 		// C11 also covers the simple server: every 8th run drives it with the
 		// boundary-dense / malformed-handle request generator of C17
 		return engines["simple"]
-	case (prop == "C01" || prop == "C07") && s%4 == 3:
+	case (prop == "C01" && s%4 == 3) || (prop == "C07" && s%4 >= 2):
+		// (C07: half of the seeds - what a COMMIT promises is decided in the group
+		// commit, with other clients' writes and COMMITs in flight)
 		// C01 under concurrency: several clients, crash points inside the group
 		// commits, linearizability of acknowledged + in-flight + post-crash history
 		return engines["conc"]
